@@ -43,17 +43,19 @@ Verdict(c) ==
             THEN <<"unscale-does-not-reproduce-raw-values", 0>>
        ELSE IF p.nameon /\ \E k \in 1..Len(t) : p.name[k] # T.name[t[k] + 1] THEN <<"taxon-name-detached", 0>>
        ELSE IF p.grpon /\ \E k \in 1..Len(t) : p.grp[k] # T.grp[t[k] + 1] THEN <<"taxon-group-detached", 0>>
+       \* (the extrema are decided before the location / scale clauses: they do not depend on how the values are centred)
+       ELSE IF ~p.extlat THEN <<"extremum-not-on-the-expected-lattice", 0>>
+       ELSE IF \E r \in full : p.tmaxu[r] # MaxRaw(T, t, r) THEN <<"tmax", 0>>
+       ELSE IF \E r \in full : p.tminu[r] # MinRaw(T, t, r) THEN <<"tmin", 0>>
+       ELSE IF \E r \in full : p.trngu[r] # MaxRaw(T, t, r) - MinRaw(T, t, r) THEN <<"trange", 0>>
+       ELSE IF \E r \in full : p.smax[r] # MaxRaw(T, t, r) \/ p.smin[r] # MinRaw(T, t, r) THEN <<"stored-scale-extrema", 0>>
        ELSE IF ~p.statlat THEN <<"summary-not-on-the-expected-lattice", 0>>
        ELSE IF \E r \in live : p.locm[r] # MeanM(T, t, r) THEN <<"location-is-not-the-mean-of-the-raw-values", CHOOSE r \in live : p.locm[r] # MeanM(T, t, r)>>
        ELSE IF \E r \in live : ~VarOK(p.varmm[r], T, t, r)
             THEN <<"scale-is-not-the-std-of-the-raw-values", CHOOSE r \in live : ~VarOK(p.varmm[r], T, t, r)>>
-       ELSE IF \E r \in full : p.tmaxu[r] # MaxRaw(T, t, r) THEN <<"tmax", 0>>
-       ELSE IF \E r \in full : p.tminu[r] # MinRaw(T, t, r) THEN <<"tmin", 0>>
-       ELSE IF \E r \in full : p.trngu[r] # MaxRaw(T, t, r) - MinRaw(T, t, r) THEN <<"trange", 0>>
        ELSE IF \E r \in live : p.tmeanm[r] # MeanM(T, t, r) THEN <<"tmean", 0>>
        ELSE IF \E r \in live : ~VarOK(p.tvarmm[r], T, t, r) THEN <<"tvar", 0>>
        ELSE IF \E r \in live : ~VarOK(p.tstdmm[r], T, t, r) THEN <<"tstd", 0>>
-       ELSE IF \E r \in full : p.smax[r] # MaxRaw(T, t, r) \/ p.smin[r] # MinRaw(T, t, r) THEN <<"stored-scale-extrema", 0>>
        ELSE IF \E r \in full : ~(p.amax[r] \in 0..(Len(t) - 1) /\ Raw(T, t[p.amax[r] + 1], r) = MaxRaw(T, t, r)) THEN <<"targmax", 0>>
        ELSE IF \E r \in full : ~(p.amin[r] \in 0..(Len(t) - 1) /\ Raw(T, t[p.amin[r] + 1], r) = MinRaw(T, t, r)) THEN <<"targmin", 0>>
        ELSE <<"ok", 0>>
